@@ -26,6 +26,77 @@ def _sym_check(fn, ident, swapped, normalizer):
     return a, b, first_difference(a, b)
 
 
+def _semantic_symmetry(repo, dl_a, dl_b):
+    """True: same leaf for every abstract input; False: a counterexample exists; None: cannot decide."""
+    import itertools
+    from .fam_d2 import Table, canon_expr, Unknown, _numeric_features
+    try:
+        ta, tb = Table(repo, dl_a), Table(repo, dl_b)
+        feats = {}
+        for t_ in (ta, tb):
+            for f, sets in t_.features.items():
+                feats.setdefault(f, set()).update(sets)
+        numeric = {}
+        for t_ in (ta, tb):
+            for f, vals in _numeric_features(t_).items():
+                numeric.setdefault(f, set()).update(vals)
+        doms = {}
+        for f in set(feats) | set(numeric):
+            sets = list(feats.get(f, ()))
+            universe = set()
+            for s_ in sets:
+                universe |= set(s_)
+            # one representative per class of the partition the literal sets induce (values no comparison can tell apart behave alike)
+            classes = {}
+            for v in sorted(universe, key=repr):
+                sig = tuple(sorted(repr(sorted(s_, key=repr)) for s_ in sets if v in s_)) + (("=" + repr(v),) if any(len(s_) == 1 and v in s_ for s_ in sets) else ())
+                classes.setdefault(sig, v)
+            vals = sorted(set(classes.values()) | numeric.get(f, set()), key=repr)
+            vals.append(12345.678 if any(isinstance(v, (int, float)) and not isinstance(v, bool) for v in vals) else "?other?")
+            doms[f] = vals
+        order = sorted(doms, key=lambda f: len(repr(f)))
+        size = 1
+        for f in order:
+            size *= len(doms[f])
+        if size > 60000 or not order:
+            import os as _os
+            if _os.environ.get("VERIF_DEBUG"):
+                print("semantic symmetry: domain size", size, [len(doms[f]) for f in order])
+            return None
+        for combo in itertools.product(*[doms[f] for f in order]):
+            env = dict(zip(order, combo))
+            ia, la = ta.decide(env)
+            ib, lb = tb.decide(env)
+            if la is None or lb is None:
+                if la is None and lb is None:
+                    continue
+                return False
+            if la[0] != lb[0]:
+                return False
+            if la[0] == "raise":
+                continue
+            va, vb = la[1], lb[1]
+            ea = list(va[1:]) if va[0] == "list" else [va]
+            eb = list(vb[1:]) if vb[0] == "list" else [vb]
+            if len(ea) != len(eb):
+                return False
+            for x, y in zip(ea, eb):
+                if canon_expr(ta, x, env) != canon_expr(tb, y, env):
+                    return False
+        return True
+    except Unknown as _e:
+        import os as _os
+        if _os.environ.get("VERIF_DEBUG"):
+            print("semantic symmetry: Unknown", _e)
+        return None
+    except Exception:
+        import os as _os
+        if _os.environ.get("VERIF_DEBUG"):
+            import traceback as _tb
+            _tb.print_exc()
+        return None
+
+
 def D1_symmetry(repo, clause, funcs=None):
     obs = []
     nz = Normalizer({})
@@ -55,6 +126,23 @@ def D1_symmetry(repo, clause, funcs=None):
             ident[p] = swapped[p] = P(p)
         a, b, diff = _sym_check(fn, ident, swapped, nz)
         ok = diff is None
+        sem = None
+        if not ok:
+            # the two decision lists are not syntactically equal: decide by evaluating both over the finite abstract domain their comparisons induce
+            sem = _semantic_symmetry(repo, a, b)
+            if sem is True:
+                ok, diff = True, None
+        if ok and sem is True:
+            detail = "decision lists of %s under %s differ in spelling but select the same leaf (normal form) on every combination of the abstract domain induced by their comparisons" % (name, desc)
+            if comm:
+                nz.comm_calls[name] = comm
+            obs.append(Ob("D1", clause, fn, fn.node, True, detail, construct="def %s" % name, slot="symmetric:%s" % name, positive=True))
+            continue
+        if not ok and sem is None:
+            i, x, y = diff
+            obs.append(Ob("D1", clause, fn, fn.node, False, "symmetry of %s under %s cannot be decided: path #%d differs in spelling and the guards are outside the table language" % (name, desc, i),
+                          construct="def %s" % name, slot="symmetric:%s" % name, undecided=True))
+            continue
         if ok:
             detail = "decision list of %s (%d paths) is identical under %s: same conditions, same returned terms, same raise/None paths" % (name, len(a), desc)
             if comm:
@@ -330,7 +418,9 @@ def D3_angle_styles(repo, clause):
         binds = all(need <= {n.id for s in body for n in ast.walk(s) if isinstance(n, ast.Name) and isinstance(n.ctx, ast.Store)} for _, body, _ in mine)
         obs.append(Ob("D3", clause, fn, t, total and binds and bool(mine),
                       "equilibrium angle %s: %d branch(es), one of them unconditional=%s, every branch binds %s=%s"
-                      % (v, len(mine), total, sorted(need), binds), construct="%s == %s" % (var, v), slot="angle-literal:%s" % v))
+                      % (v, len(mine), total, sorted(need), binds), construct="%s == %s" % (var, v), slot="angle-literal:%s" % v,
+                      # the literal is admitted by the membership test but no unconditional branch handles it: n and b stay unbound (or keep another angle's values) for that angle
+                      positive=not (total and bool(mine)) and len(arms) >= 2))
     arm_lits = set()
     for test, body in arms:
         for c in ast.walk(test):
